@@ -170,6 +170,17 @@ func drvReserved() [][]Action {
 	return out
 }
 
+// sameNamed: another standard package with the same declared name ("" if there is none)
+func sameNamed(std map[string]string, p string) string {
+	best := ""
+	for q, n := range std {
+		if q != p && n == std[p] && (best == "" || q < best) {
+			best = q
+		}
+	}
+	return best
+}
+
 func drvStd(pairs bool) [][]Action {
 	std := StdPackages()
 	paths := []string{}
@@ -182,6 +193,23 @@ func drvStd(pairs bool) [][]Action {
 		for _, p := range paths {
 			st := &symtab{}
 			out = append(out, []Action{newAct("", ""), {A: "Add", Tree: varQ(p, st.sym(p))}, {A: "Render"}})
+			// a File whose OWN path ends in the standard path (a fork, a vendored copy, github.com/pkg/errors): it is another package
+			{
+				st3 := &symtab{}
+				own := newAct([]string{"github.com/pkg/", "example.com/vendor/", "internal/"}[len(p)%3]+p, "")
+				if len(p)%2 == 0 {
+					own.Ctor = "NewFilePath"
+					own.Name = RefGuess(own.Local)
+				}
+				out = append(out, []Action{own, {A: "Add", Tree: varQ(p, st3.sym(p))}, {A: "Add", Tree: varQ(own.Local, st3.sym(own.Local))}, {A: "Render"}})
+			}
+			// a fragment that references the package is rendered with the File first (a preview), then the File - whose body
+			// references another package of the same name, or the same one
+			if other := sameNamed(std, p); other != "" {
+				st4 := &symtab{}
+				out = append(out, []Action{newAct("", ""), {A: "Frag", Tree: fragQ(p, st4.sym(p))}, {A: "Add", Tree: varQ(other, st4.sym(other))}, {A: "Render"},
+					{A: "Add", Tree: varQ(p, st4.sym(p))}, {A: "Render"}})
+			}
 			// the same package under an explicit alias: its last path element, its real name, some other name - the
 			// qualifier must then be that alias and the import must carry it (or provide it anyway)
 			last := p
@@ -453,6 +481,11 @@ func drvDotLocal(r *rand.Rand, n int) [][]Action {
 		st := &symtab{}
 		L := locals[r.Intn(len(locals))]
 		near := []string{L, L + "/x", "x/" + L, strings.ToUpper(L), strings.ToLower(L), L + "x", L[1:], L + "/", "other/d", "fmt"}
+		for k := 0; k < len(L); k++ {
+			if L[k] == '/' && k+1 < len(L) {
+				near = append(near, L[k+1:]) // what follows a slash of the own path (its last element, its last two ...): other packages
+			}
+		}
 		if t := strings.TrimRight(L, "/.-"); t != L {
 			near = append(near, t, t, strings.TrimSuffix(L, "/")+"."+"/") // the same path spelled without its last character(s): another package
 		}
